@@ -991,6 +991,13 @@ func (self *AofChannel) HandleLock(aofLock *AofLock) {
 	err = self.aof.PushLock(self.lockDbGlockIndex, aofLock)
 	if err != nil {
 		if aofLock.AofFlag&AOF_FLAG_REQUIRE_ACKED != 0 && aofLock.CommandType == protocol.COMMAND_LOCK && aofLock.lock != nil {
+			// the record may already wait for acknowledgements: it is taken out there first, so that the
+			// failure report queued by the failed flush (or a follower's answer) does not fail the lock again
+			db := self.aof.slock.replicationManager.GetAckDB(aofLock.DbId)
+			if db != nil {
+				db.ProcessLeaderPushLockFailed(self.lockDbGlockIndex, aofLock)
+				return
+			}
 			lockManager := aofLock.lock.manager
 			lockManager.lockDb.DoAckLock(aofLock.lock, false)
 		}
